@@ -18,7 +18,7 @@ import ast
 import copy
 import itertools
 
-from .interp import AV, UNK, BaseRule, Out, const
+from .interp import AV, UNK, BaseRule, Out, const, exc
 
 PURE_STR_METHODS = {
     "lower", "upper", "strip", "lstrip", "rstrip", "decode", "encode", "casefold", "title", "capitalize", "swapcase",
@@ -209,7 +209,17 @@ class TermRule(BaseRule):
         if is_slice:
             lo, hi, step = parts
             return tv(T("slice", b, *[("" if (p.kind == "const" and p.val is None) else term_of(p)) for p in (lo, hi, step)]), none=False)
-        return tv(T("idx", b, term_of(parts[0])))
+        res = tv(T("idx", b, term_of(parts[0])))
+        rz = getattr(self, "raising", None) or {}
+        if rz.get("subscript") and isinstance(node.ctx, ast.Load):
+            # a lookup declared as possibly failing (`try: m[k] / except KeyError:` is the lookup-or-insert idiom)
+            s2 = st.copy()
+            s2.log(node, f"{ast.unparse(node)[:40]} raises {rz['subscript']}")
+            present = st.copy()
+            present.ts[("cmp", term_of(parts[0]), "in", b)] = True
+            s2.ts[("cmp", term_of(parts[0]), "in", b)] = False
+            return [Out("normal", present, res), Out("raise", s2, exc(rz["subscript"]))]
+        return res
 
     # ---- one symbolic iteration per loop (the element is `each(<iterable>)`); appends made inside are marked as repeated
     def for_iter(self, it, st, stmt, itv):
